@@ -38,7 +38,7 @@ func freshError(e *Engine, s *State) *Val {
 }
 
 func lockKey(e *Engine, a *Val) (string, *Addr) {
-	if a.A == nil || a.A.K != AField {
+	if a.A == nil || (a.A.K != AField && a.A.K != AGlobal) {
 		return "", nil
 	}
 	return a.A.Key(), a.A
@@ -134,7 +134,7 @@ func init() {
 	// ---- bytes.Buffer (ghost length buflen) ----
 	bufGrow := func(key string, amount func(e *Engine, s *State, c *ssa.CallCommon, args []*Val) string, result func(n string) *Val) {
 		reg(key, []string{"GH!buflen"}, "buflen(b) grows by the number of bytes written; never fails", func(e *Engine, s *State, c *ssa.CallCommon, args []*Val, in ssa.Instruction) *Val {
-			b := args[0].L[0]
+			b := e.objRef(s, args[0])
 			n := amount(e, s, c, args)
 			g := e.heapGet(s, "GH!buflen", "(Array Int Int)")
 			e.heapSet(s, "GH!buflen", "(Array Int Int)", app("store", g, b, app("+", app("select", g, b), n)))
@@ -150,19 +150,19 @@ func init() {
 	bufGrow("bytes.Buffer.WriteByte", func(e *Engine, s *State, c *ssa.CallCommon, args []*Val) string { return "1" }, func(n string) *Val { return &Val{L: []string{"0"}} })
 	reg("bytes.Buffer.Len", nil, "result == buflen(b) >= 0", func(e *Engine, s *State, c *ssa.CallCommon, args []*Val, in ssa.Instruction) *Val {
 		g := e.heapGet(s, "GH!buflen", "(Array Int Int)")
-		r := e.define(s, "buflen", "Int", app("select", g, args[0].L[0]))
+		r := e.define(s, "buflen", "Int", app("select", g, e.objRef(s, args[0])))
 		s.assume(and(app(">=", r, "0"), app("<", r, "4611686018427387904")))
 		return &Val{L: []string{r}}
 	})
 	reg("bytes.Buffer.Reset", []string{"GH!buflen"}, "buflen(b) == 0 afterwards", func(e *Engine, s *State, c *ssa.CallCommon, args []*Val, in ssa.Instruction) *Val {
 		g := e.heapGet(s, "GH!buflen", "(Array Int Int)")
-		e.heapSet(s, "GH!buflen", "(Array Int Int)", app("store", g, args[0].L[0], "0"))
+		e.heapSet(s, "GH!buflen", "(Array Int Int)", app("store", g, e.objRef(s, args[0]), "0"))
 		return &Val{}
 	})
 	reg("bytes.Buffer.Bytes", []string{"Alloc"}, "result is a slice with len == buflen(b) (contents unconstrained)", func(e *Engine, s *State, c *ssa.CallCommon, args []*Val, in ssa.Instruction) *Val {
 		g := e.heapGet(s, "GH!buflen", "(Array Int Int)")
 		v := e.havocVal(s, c.Signature().Results().At(0).Type(), "bufbytes")
-		s.assume(eq(v.L[2], app("select", g, args[0].L[0])))
+		s.assume(eq(v.L[2], app("select", g, e.objRef(s, args[0]))))
 		s.assume(implies(app(">", v.L[2], "0"), app(">", v.L[0], "0")))
 		e.assumeAllocatedVal(s, c.Signature().Results().At(0).Type(), v)
 		return v
@@ -195,7 +195,7 @@ func isPureExternal(key string) bool {
 // guardAcquire havocs the fields protected by the lock at a and assumes the guard invariants.
 func (e *Engine) guardAcquire(s *State, a *Addr, in ssa.Instruction) {
 	for _, g := range e.C.Guards {
-		if g.Struct != a.SKey || "."+g.Lock != a.Path {
+		if a.K != AField || g.Struct != a.SKey || "."+g.Lock != a.Path {
 			continue
 		}
 		st := e.structTypeByKey(g.Struct)
@@ -240,7 +240,7 @@ func (e *Engine) assumeGuardInv(s *State, g *Guard, a *Addr, st types.Type) {
 
 func (e *Engine) guardRelease(s *State, a *Addr, in ssa.Instruction) {
 	for _, g := range e.C.Guards {
-		if g.Struct != a.SKey || "."+g.Lock != a.Path {
+		if a.K != AField || g.Struct != a.SKey || "."+g.Lock != a.Path {
 			continue
 		}
 		st := e.structTypeByKey(g.Struct)
@@ -280,4 +280,19 @@ func visitPkgs(p *types.Package, seen map[*types.Package]bool, f func(*types.Pac
 	for _, im := range p.Imports() {
 		visitPkgs(im, seen, f)
 	}
+}
+
+// objRef is the identity of the object a pointer value points to. Embedded-by-value struct fields
+// get an identity derived from the owning object.
+func (e *Engine) objRef(s *State, v *Val) string {
+	if len(v.L) > 0 {
+		return v.L[0]
+	}
+	if v.A != nil && v.A.K == AField {
+		f := "fobj!" + sanitize(v.A.SKey+v.A.Path)
+		e.globalDecl("(declare-fun " + f + " (Int) Int)")
+		return app(f, v.A.Base)
+	}
+	e.unsupportedf("pointer without object identity")
+	return ""
 }
